@@ -118,11 +118,20 @@ Definition close_frame (e : errk) : bool * Z :=
   | _ => (false, rl_InternalError)
   end.
 
-Definition close_action (client sentFirstPacket : bool) (ce : closeError) : action :=
+(** isSilentClose: errors that must not be answered with a CONNECTION_CLOSE even when they reach the run
+    loop as an ordinary (not immediate) error: a stateless reset detected by the connection itself
+    (RFC 9000 10.3.1) and the attempt abandoned after Version Negotiation *)
+Definition silent_err (e : errk) : bool :=
+  match e with EStatelessReset | ERecreate => true | _ => false end.
+
+(** [ampl]: server, handshake not complete, something was sent, and the sent-packet handler says SendNone
+    (anti-amplification limit used up): close silently, keep a stand-in that absorbs packets (oracle input) *)
+Definition close_action (client sentFirstPacket ampl : bool) (ce : closeError) : action :=
   let e := mapped_err ce in
   if is_remote e then ActReplaceClosedNil
-  else if ce_immediate ce then ActRemoveAll
+  else if ce_immediate ce || silent_err e then ActRemoveAll
   else if client && negb sentFirstPacket then ActRemoveAll
+  else if ampl then ActReplaceClosedNil
   else let '(a, c) := close_frame e in ActSendClose a c.
 
 (** context.Cause(conn.Context()): run() returns closeErr.err; a nil close keeps it nil, and cancel(nil) records Canceled *)
@@ -135,12 +144,16 @@ Definition routing_after (a : action) : Z :=
 
 (** * Timers *)
 
-(** applyTransportParams (peerIdle = params.MaxIdleTimeout) *)
-Definition applyTP (s : st) (peerIdle : Z) : st :=
+(** applyTransportParams. peerIdle = params.MaxIdleTimeout (as parsed: raised to MinRemoteIdleTimeout),
+    peerAdv = params.AdvertisedMaxIdleTimeout (exactly what the peer sent; 0 = not known).
+    The keep-alive interval is computed from the smaller of the own idle timeout and what the peer
+    advertised: the peer times out after THAT duration. *)
+Definition applyTP (s : st) (peerIdle peerAdv : Z) : st :=
   let idle0 := c_maxIdleTimeout (cf s) in
   let idle := if 0 <? peerIdle then Z.min idle0 peerIdle else idle0 in
+  let kaIdle := if 0 <? peerAdv then Z.min idle peerAdv else idle in
   {| cf := cf s; hsComplete := hsComplete s; idleTimeout := idle;
-     kaInterval := Z.min (c_keepAlivePeriod (cf s)) (idle / 2);
+     kaInterval := Z.min (c_keepAlivePeriod (cf s)) (kaIdle / 2);
      creation := creation s; lastRecv := lastRecv s; firstAE := firstAE s; kaSent := kaSent s;
      blocked := blocked s; pacing := pacing s; sentFirst := sentFirst s; closeErr := closeErr s |}.
 
@@ -197,7 +210,7 @@ Inductive ev :=
 | EvRecv (t : Z)              (* a packet was unpacked: handleUnpacked{Long,Short}HeaderPacket *)
 | EvSentAE (now : Z)          (* an ack-eliciting packet was registered as sent *)
 | EvWake (now pto : Z)        (* the loop passes the timeout checks at [now] *)
-| EvHsComplete (peerIdle : Z) (* handshake complete + applyTransportParams *)
+| EvHsComplete (peerIdle peerAdv : Z) (* handshake complete + applyTransportParams *)
 | EvBlocked (mode : Z)        (* triggerSending set the block mode *)
 | EvClose (e : closeError).   (* a close request from anywhere *)
 
@@ -216,7 +229,7 @@ Definition step (s : st) (e : ev) : st :=
       | DContinue => s
       end
     end
-  | EvHsComplete p => setHsComplete (applyTP s p)
+  | EvHsComplete p a => setHsComplete (applyTP s p a)
   | EvBlocked m => upd_timers s (lastRecv s) (firstAE s) (kaSent s) m
   | EvClose ce => setCloseError s ce
   end.
@@ -321,29 +334,62 @@ Definition api_call (a : api) (c : call) : res :=
   | CReceiveDatagram =>
     if a_rcvQueued a then ROk else match a_dgErr a with Some e => RErr e | None => RBlock end
   | CSendDatagram =>
-    (* datagramQueue.Add: queues while there is room, WITHOUT looking at closeErr *)
-    if a_sendRoom a then ROk else match a_dgErr a with Some e => RErr e | None => RBlock end
+    (* datagramQueue.Add: fails once the queue is closed; else queues while there is room *)
+    match a_dgErr a with Some e => RErr e | None => if a_sendRoom a then ROk else RBlock end
   | CRead i => match nth_error (a_rstreams a) i with Some r => r_read r | None => RBlock end
   | CWrite i => match nth_error (a_sstreams a) i with Some s => s_write s | None => RBlock end
   end.
 
+(** * Parked goroutines and how the fan-out wakes them
+
+    Any number of goroutines may be parked in the same call (several AcceptStream callers, several
+    OpenStreamSync waiters, several ReceiveDatagram callers ...): the parked set is a LIST of calls in which
+    a call may occur any number of times. What wakes them when the connection ends:
+      incoming maps   close(m.newStreamChan)                 a closed channel wakes every waiter
+      outgoing maps   every waiter's own channel in openQueue is closed
+      datagram queue  close(h.closed)
+      streams         signalRead / signalWrite: one token in a 1-slot channel — wakes ONE goroutine; the API
+                      allows one reader (writer) per stream at a time (Write is serialised by writeOnce) *)
+Inductive wakeup := WakeAll | WakeOne.
+
+Definition close_wakeup (c : call) : wakeup :=
+  match c with
+  | CRead _ | CWrite _ => WakeOne
+  | _ => WakeAll
+  end.
+
+Definition call_eq_dec : forall c d : call, {c = d} + {c <> d}.
+Proof. decide equality; apply Nat.eq_dec. Defined.
+
+(** the parked calls that are woken, for a wake-up primitive [wk] per call: a token serves the first waiter on
+    that object only *)
+Fixpoint woken_from (wk : call -> wakeup) (served : list call) (ps : list call) : list call :=
+  match ps with
+  | [] => []
+  | p :: r =>
+    match wk p with
+    | WakeAll => p :: woken_from wk served r
+    | WakeOne => if in_dec call_eq_dec p served then woken_from wk served r
+                 else p :: woken_from wk (p :: served) r
+    end
+  end.
+Definition woken (ps : list call) : list call := woken_from close_wakeup [] ps.
+
+(** at most one goroutine parked per stream direction *)
+Definition one_per_stream (ps : list call) : Prop :=
+  NoDup (filter (fun c => match close_wakeup c with WakeOne => true | WakeAll => false end) ps).
+
 (** * How run() ends, and what is left in the transport's routing table
 
-    run() has two ways out. If cryptoStreamHandler.StartHandshake (or the first
-    handleHandshakeEvents) fails it RETURNS THE ERROR BEFORE THE LOOP: handleCloseError is never
-    called (no fan-out, no connIDGenerator action, timer not stopped). Otherwise it leaves the loop
-    with the recorded close error and runs handleCloseError. *)
-Inductive exit :=
-| ExitEarly (e : errk)
-| ExitLoop (ce : closeError).
+    If cryptoStreamHandler.StartHandshake (or the first handleHandshakeEvents) fails, run() calls
+    destroyImpl(err) and goes on: the loop is left in its first iteration and handleCloseError runs like
+    for every other close (nothing is sent, the connection IDs are removed, streams and datagram queue
+    are closed, the timer is stopped). *)
+Definition start_failure (e : errk) : closeError := {| ce_err := e; ce_immediate := true |}.
 
 (** routing entry kind of the connection's IDs [elapsed] after run() returned (expiry = 3 PTO):
-    0 none, 1 closedLocalConn, 2 closedRemoteConn, 3 still the connection itself *)
-Definition exit_routing (client sentFirstPacket : bool) (x : exit) (elapsed expiry : Z) : Z :=
-  match x with
-  | ExitEarly _ => 3
-  | ExitLoop ce => if expiry <=? elapsed then 0 else routing_after (close_action client sentFirstPacket ce)
-  end.
+    0 none, 1 closedLocalConn, 2 closedRemoteConn *)
+Definition exit_routing (client sentFirstPacket ampl : bool) (ce : closeError) (elapsed expiry : Z) : Z :=
+  if expiry <=? elapsed then 0 else routing_after (close_action client sentFirstPacket ampl ce).
 (** what the API objects were closed with *)
-Definition exit_fanout (x : exit) : option errk :=
-  match x with ExitEarly _ => None | ExitLoop ce => Some (mapped_err ce) end.
+Definition exit_fanout (ce : closeError) : errk := mapped_err ce.
